@@ -277,6 +277,16 @@ func TestVerifC09(t *testing.T) {
 				emit("run", mon, s, "stream:invalid-runs", fmt.Sprintf("k:%d", k))
 			}
 		}
+		// long floods of invalid messages (far beyond any retry budget or internal bound), then a valid RS:
+		// "can never disrupt service" has no limit on how many are ignored
+		for _, k := range []int{100, 1025, 3000} {
+			var s []scriptRead
+			for j := 0; j < k; j++ {
+				s = append(s, msg(verifh.Pick(r, []int{133, 134}), verifh.Pick(r, []int{0, 1, 64, 254}), 50+j%200))
+			}
+			s = append(s, msg(133, 255, 7))
+			emit("flood", mon, s, "stream:invalid-floods", fmt.Sprintf("k:%d", k))
+		}
 		// timeouts: 1..6 consecutive, with and without a message in between
 		for k := 1; k <= 6; k++ {
 			var s []scriptRead
